@@ -526,6 +526,11 @@ public:
         {
             m_info = Eigen::Success;
         }
+        else if (m_info == Eigen::Success)
+        {
+            // a Success left by an earlier run must not survive a run that did not converge
+            m_info = Eigen::NoConvergence;
+        }
     }  // compute
 
     Vector eigenvalues()
